@@ -495,6 +495,89 @@ def gthread_queue_probe(threads=1, max_requests=2, nclients=6, delay=0.6):
     return out
 
 
+
+def real_inflight_probe(cls, slow_on_second, max_requests=2, d=2.5):
+    """A REAL master with one worker of class cls on two listeners: a request that takes d seconds is in flight on one listener
+    while short requests on the OTHER listener take the worker to max_requests.  The worker stops accepting, but the request in
+    flight must be answered in full (graceful_timeout 8 s) before it exits; afterwards a new worker serves."""
+    import lib_arb2_real as R
+    import socket as _s
+    srv = R.Server(worker_class=cls, workers=1, graceful=8, bind="unix", keepalive=0, second_bind=True,
+                   extra={"max_requests": max_requests})
+    out = {"cls": cls, "slow_on_second": slow_on_second}
+    try:
+        srv.start()
+        first = sorted(srv.children())
+        out["first_worker"] = first
+        paths = [srv.sock_path, os.path.join(srv.dir, "g2.sock")]
+        slow_path, fast_path = (paths[1], paths[0]) if slow_on_second else (paths[0], paths[1])
+
+        def conn(path):
+            c = _s.socket(_s.AF_UNIX, _s.SOCK_STREAM)
+            c.settimeout(d + 12)
+            c.connect(path)
+            return c
+
+        def read_all(c):
+            data = b""
+            try:
+                while True:
+                    blk = c.recv(65536)
+                    if not blk:
+                        break
+                    data += blk
+            except OSError as e:
+                data += b"<" + type(e).__name__.encode() + b">"
+            return data
+        slow = conn(slow_path)
+        slow.sendall(R.Client.request(d=d))
+        time.sleep(0.5)
+        fast = []
+        for _ in range(max_requests - 1):
+            c = conn(fast_path)
+            c.sendall(R.Client.request(d=0))
+            fast.append(read_all(c))
+            c.close()
+        out["fast"] = [R.parse_response(x)["status"] for x in fast]
+        data = read_all(slow)
+        slow.close()
+        r = R.parse_response(data)
+        out["slow"] = {"status": r["status"], "complete": bool(r["complete"]), "pid": r.get("pid"), "bytes": len(data)}
+        # the replacement
+        def replaced():
+            ch = sorted(srv.children())
+            return ch if ch and not (set(ch) & set(first)) else None
+        out["new_worker"] = R.wait_for(replaced, 12)
+        c = conn(paths[0])
+        c.sendall(R.Client.request(d=0))
+        r2 = R.parse_response(read_all(c))
+        c.close()
+        out["after"] = {"status": r2["status"], "pid": r2.get("pid")}
+    except Exception as e:
+        out["harness_error"] = "%s: %s | %s" % (type(e).__name__, e, srv.read_log()[-600:])
+    finally:
+        srv.cleanup()
+    return out
+
+
+def judge_real_inflight(res):
+    fails = []
+    if "harness_error" in res:
+        return ["harness: " + res["harness_error"]]
+    if any(st != 200 for st in res["fast"]):
+        fails.append("a short request on the other listener was not answered: statuses %r" % (res["fast"],))
+    sl = res["slow"]
+    if sl["status"] != 200 or not sl["complete"]:
+        fails.append("the request in flight when the worker reached max_requests was not answered in full: %r" % (sl,))
+    elif sl["pid"] not in res["first_worker"]:
+        fails.append("the request in flight was answered by pid %r, not by the worker that had it (%r)" % (sl["pid"], res["first_worker"]))
+    if not res.get("new_worker"):
+        fails.append("the worker that reached max_requests was not replaced within 12 s")
+    if res.get("after", {}).get("status") != 200:
+        fails.append("after the recycling a new request was not served: %r" % (res.get("after"),))
+    return fails
+
+
 def judge_gthread_queue(res):
     fails = []
     full = sum(1 for a in res["answers"] if a.startswith(b"HTTP/1.1 200") and a.endswith(b"ok"))
@@ -668,6 +751,31 @@ def run(ctx):
         for f in judge_gthread_queue(res)[:2]:
             ctx.violation("gthread run() with %d simultaneous requests, %d thread(s), max_requests=%d: %s" % (nc, th, mr, f),
                           {"kind": "gthread-queue", "threads": th, "max_requests": mr, "nclients": nc})
+    # REAL masters, two listeners, a request in flight on one of them while the other takes the worker to the limit
+    combos2 = ([("gevent", False), ("eventlet", True), ("gthread", False)] if quick else
+               [(c, b) for c in ("gevent", "eventlet", "gthread") for b in (False, True)])
+    results2 = [None] * len(combos2)
+
+    def work2(i):
+        results2[i] = real_inflight_probe(*combos2[i])
+    ths = [threading.Thread(target=work2, args=(i,)) for i in range(len(combos2))]
+    for t in ths:
+        t.start()
+    for t in ths:
+        t.join()
+    for i, (cls2, sec) in enumerate(combos2):
+        res = results2[i]
+        if res is None or "harness_error" in res:
+            res = real_inflight_probe(cls2, sec)
+        ctx.count_case(("real-inflight", cls2, sec), True)
+        ctx.hist("real_inflight", "%s / slow request on the %s listener" % (cls2, "second" if sec else "first"))
+        ctx.extra.setdefault("real_inflight", []).append({k: v for k, v in res.items()})
+        for f in judge_real_inflight(res)[:2]:
+            if f.startswith("harness:"):
+                ctx.broken.append("real in-flight probe %s could not be carried out: %s" % (cls2, f[:500]))
+            else:
+                ctx.violation("real %s worker, two listeners, max_requests=2: %s" % (cls2, f),
+                              {"kind": "real-inflight", "cls": cls2, "slow_on_second": sec})
     # the real accept loops of the sync worker with clients already queued on one / several listeners
     combos = [(1, 1), (2, 1), (2, 2), (1, 3), (3, 2)] if quick else [(m, n) for m in (1, 2, 3, 5) for n in (1, 2, 3)]
     for mr, nl in combos:
@@ -683,7 +791,8 @@ def run(ctx):
                        "alive) and single-request dispatches (4-18 steps; sync: accept+dispatch pairs); application responses with "
                        "Content-Length, chunked, write() and file-wrapper bodies; non-trivial = at least one application entry; "
                        "distinct by (worker, limit, plan, schedule, script seed); plus the real ThreadWorker.run() with real sockets for D14 "
-                       "and the real SyncWorker.run() (one and several listeners) with clients already queued")
+                       "and the real SyncWorker.run() (one and several listeners) with clients already queued; real masters with one "
+                       "gevent / eventlet / gthread worker on two listeners and a request in flight when the limit is reached")
     bad = ctx.correspond("sched", HEADER, cases, shard=150)
     if bad:
         i, m, im = bad[0]
@@ -728,6 +837,12 @@ def replay(rep):
         res = gthread_queue_probe(rep["threads"], rep["max_requests"], rep["nclients"])
         fs = judge_gthread_queue(res)
         print({k: v for k, v in res.items() if k != "answers"}, [a[:30] for a in res["answers"]])
+        print("failures:", fs)
+        return 1 if fs else 0
+    if rep.get("kind") == "real-inflight":
+        res = real_inflight_probe(rep["cls"], rep["slow_on_second"])
+        fs = judge_real_inflight(res)
+        print(res)
         print("failures:", fs)
         return 1 if fs else 0
     if rep.get("kind") == "sync-backlog":
